@@ -31,6 +31,10 @@ def run(chk):
     # both orders: each keeps its own regex
     c01.run_instance(chk, "params-same-skeleton", ["/a/{x}", "/a/{x:dig}", "/a/{x:ab}", "/a[/{x}]", "/a[/{x:dig}]"], 4, 2, chars=("/", "a", "1", "b"),
                      method_sets=(("GET",), ("POST",)), req_methods=("GET", "POST"), only=PAR)
+    # outside the documented grammar: a variable's regex with a capturing (named or plain) group of its own. Registration may
+    # refuse such a route; if it accepts it, the values still have to be the captured substrings (name <-> group alignment)
+    c01.run_instance(chk, "params-groups-in-regex", ["/a/{x:dign}/{y}", "/{x:digc}/{y}", "/a/{x:dign}[/{y}]", "/{x}/{y:digc}"], 5, 1, chars=("/", "1", "a", "2"),
+                     only=PAR - {"registration-panic"}, harness_env={"VERIF_MATCH_MAY_REJECT": "1"})
     if thorough:
         c01.run_instance(chk, "params-pairs", pool[::2], 5, 2, only=PAR)
     from . import c08
